@@ -765,6 +765,9 @@ impl<T: Payload> ThreadCtx<T> {
         }
         out
     }
+    pub fn has_open_stream_wait(&self) -> bool {
+        self.held_stream.as_ref().map_or(false, |s| s.1.is_some())
+    }
     pub fn sstream_drop(&mut self) {
         if let Some((st, k)) = self.held_stream.take() {
             if let Some(k) = k {
